@@ -45,7 +45,7 @@ def build(repo):
             Rule("R1", "Self {", op + " {", why="Self"),
         ]
         bn = translate(fnew["body"], R, log, f"{op}::new"); check_closed(bn, f"{op}::new")
-        bf = translate(ffin["body"], R, log, f"{op}::finish"); check_closed(bf, f"{op}::finish")
+        bf = translate(L.cells_pass(ffin["body"], log, f"{op}::finish"), R, log, f"{op}::finish"); check_closed(bf, f"{op}::finish")
         parts.append(f"""
 impl {op} {{
     //@ OBL C13.bridge.{op}.new
@@ -59,7 +59,8 @@ impl {op} {{
 {render(bn, 2)}
     }}
     //@ OBL C13.bridge.{op}.finish
-    pub fn finish(&self) -> (r: Result<Option<Primitive>, VErr>)
+    pub fn finish(&self, heap: &Heap) -> (r: Result<Option<Primitive>, VErr>)
+        requires live(heap, &self.underlying), live(heap, &self.{field})
         ensures r is Ok && r->Ok_0 is Some && r->Ok_0->Some_0 is Vector && vid(&r->Ok_0->Some_0->Vector_0) == vid(&self.{field})      // exactly the bridge's own result list
     {{
 {render(bf, 2)}
